@@ -640,6 +640,111 @@ class ProcessPair(Harness):
         return out
 
 
+class Wiring(Harness):
+    """L5-lite: crosscorrelate / autocorrelate hand the right catalogs to tree building, linkage and pair counting and
+    assemble DD/DR/RD/RR accordingly (the counting itself is L1-L4)"""
+
+    functions = (meas.crosscorrelate, meas.autocorrelate, PatchLinkage.count_pairs_optional)
+    modules = (meas,)
+    xval = False
+
+    def __init__(self, wrong=None):
+        self.wrong = wrong
+        self.name = "wiring" + (".twin-" + wrong if wrong else "")
+        self.bounds = ("auto / cross; which random catalogs are supplied (4 combinations) / count_rr; closed side; 1-2 scales -- "
+                       "chosen by the engine; catalogs, linkage and pair counting replaced by recorders")
+        self.must_fail = wrong is not None
+
+    def make_inputs(self, eng):
+        return {"auto": eng.choose(2, "auto"), "randoms": eng.choose(4, "randoms_supplied"), "closed": eng.choose(2, "closed"),
+                "scales": 1 + eng.choose(2, "num_scales")}
+
+    def concrete_inputs(self, m, inp):
+        return dict(inp)
+
+    def body(self, inp):
+        from yaw.correlation.corrfunc import CorrFunc
+        from yaw.correlation.paircounts import NormalisedCounts, PatchedCounts, PatchedSumWeights
+
+        S = inp["scales"]
+        closed = ("right", "left")[inp["closed"]]
+        edges = np.array([0.25, 0.5, 1.0])
+        binning = Binning(edges, closed=closed)
+        cfg = types.SimpleNamespace(binning=types.SimpleNamespace(edges=edges, closed=closed, binning=binning),
+                                    scales=types.SimpleNamespace(num_scales=S, rweight=None), max_workers=None, cosmology=None)
+        log = []
+
+        class Cat:
+            def __init__(self, cid):
+                self.cid = cid
+
+            def build_trees(self, binning=None, *, closed="right", leafsize=16, force=False, progress=False, max_workers=None):
+                log.append(("build", self.cid, None if binning is None else tuple(binning), str(closed)))
+
+        def token(c1, c2, s, auto):
+            val = 100.0 * c1 + 10.0 * c2 + s
+            return NormalisedCounts(PatchedCounts(binning, np.full((2, 2, 2), val), auto=auto),
+                                    PatchedSumWeights(binning, np.ones((2, 2)), np.ones((2, 2)), auto=auto))
+
+        class FakeLinkage(PatchLinkage):
+            def __init__(self):
+                self.config = cfg
+
+            @classmethod
+            def from_catalogs(cls, config, catalog, *catalogs):
+                log.append(("link", tuple(c.cid for c in (catalog,) + catalogs)))
+                return cls()
+
+            def count_pairs(self, main_catalog, *optional_catalog, progress=False, max_workers=None):
+                auto = len(optional_catalog) == 0
+                c2 = main_catalog.cid if auto else optional_catalog[0].cid
+                log.append(("count", main_catalog.cid, None if auto else c2))
+                return [token(main_catalog.cid, c2, s, auto) for s in range(S)]
+
+        def ident(nc):
+            return None if nc is None else (int(nc.counts.counts[0, 0, 0]) // 100, (int(nc.counts.counts[0, 0, 0]) // 10) % 10)
+
+        old = meas.PatchLinkage
+        meas.PatchLinkage = FakeLinkage
+        out = []
+        try:
+            if inp["auto"]:
+                data, rand = Cat(1), Cat(3)
+                count_rr = bool(inp["randoms"] & 1)
+                cfs = meas.autocorrelate(cfg, data, rand, count_rr=count_rr)
+                exp = dict(dd=(1, 1), dr=(1, 3), rd=None, rr=(3, 3) if count_rr else None)
+                exp_build = {(1, tuple(edges), closed), (3, tuple(edges), closed)}
+                exp_link = {1, 3}
+            else:
+                ref, unk, rr_, ur = Cat(1), Cat(2), Cat(3), Cat(4)
+                has_rr, has_ur = bool(inp["randoms"] & 1), bool(inp["randoms"] & 2)
+                if not has_rr and not has_ur:
+                    try:
+                        meas.crosscorrelate(cfg, ref, unk)
+                    except ValueError:
+                        return [Check("no_randoms_rejected", cond=True)]
+                    return [Check("no_randoms_rejected", cond=False)]
+                cfs = meas.crosscorrelate(cfg, ref, unk, ref_rand=rr_ if has_rr else None, unk_rand=ur if has_ur else None)
+                exp = dict(dd=(1, 2), dr=(1, 4) if has_ur else None, rd=(3, 2) if has_rr else None, rr=(3, 4) if has_rr and has_ur else None)
+                if self.wrong == "swap":
+                    exp["dr"], exp["rd"] = exp["rd"], exp["dr"]
+                exp_build = {(1, tuple(edges), closed), (2, None, None)} | ({(3, tuple(edges), closed)} if has_rr else set()) | (
+                    {(4, None, None)} if has_ur else set())
+                exp_link = {1, 2} | ({3} if has_rr else set()) | ({4} if has_ur else set())
+        finally:
+            meas.PatchLinkage = old
+        out.append(Check("one_corrfunc_per_scale", cond=(len(cfs) == S and all(isinstance(c, CorrFunc) for c in cfs))))
+        for s, cf in enumerate(cfs):
+            got = dict(dd=ident(cf.dd), dr=ident(cf.dr), rd=ident(cf.rd), rr=ident(cf.rr))
+            out.append(Check("members_scale%d" % s, cond=(got == exp)))
+            out.append(Check("scale_order%d" % s, cond=(int(cf.dd.counts.counts[0, 0, 0]) % 10 == s)))
+        builds = {(b[1], b[2], b[3] if b[2] is not None else None) for b in log if b[0] == "build"}
+        out.append(Check("trees_built_with_the_configured_binning", cond=(builds == exp_build)))
+        links = [l for l in log if l[0] == "link"]
+        out.append(Check("linkage_sees_all_catalogs", cond=(len(links) == 1 and set(links[0][1]) == exp_link)))
+        return out
+
+
 def Engine_apps(cosmo):
     from vf.symx import Engine
 
@@ -661,16 +766,16 @@ def harnesses(tier):
         hs += [PairIteration(3, True), PairIteration(3, False)]
         hs += [Accumulate(2, 1, 2, True), Accumulate(2, 2, 1, False)]
         hs += [MaxAngle(1, 1, "kpc"), MaxAngle(2, 1, "Mpc/h"), MaxAngle(1, 2, "arcmin"), Linkage(2)]
-        hs += [ProcessPair(2, 2, "kpc", False), ProcessPair(2, 1, "Mpc/h", True)]
+        hs += [ProcessPair(2, 2, "kpc", False), ProcessPair(2, 1, "Mpc/h", True), Wiring()]
     else:
         hs += [MaxAngle(2, 2, u) for u in UNITS] + [MaxAngle(3, 1, "kpc"), Linkage(2), Linkage(3), Linkage(2, N=3)]
-        hs += [ProcessPair(3, 2, u, bb) for u in ("kpc", "Mpc/h", "deg") for bb in (False, True)]
+        hs += [ProcessPair(3, 2, u, bb) for u in ("kpc", "Mpc/h", "deg") for bb in (False, True)] + [Wiring()]
         hs += [TreeCount(2, 2, 1), TreeCount(2, 1, 2), TreeCount(1, 1, 3), TreeCount(1, 2, 1, res=1), TreeCount(1, 1, 1, res=2),
                TreeCount(1, 1, 2, res=1), TreeCount(1, 1, 1, res=7), EmptyTree()]
         hs += [PairIteration(4, True), PairIteration(4, False), PairIteration(5, True)]
         hs += [Accumulate(3, 2, 2, True), Accumulate(3, 2, 2, False)]
     hs += [TreeCount(1, 1, 1, wrong="closed"), TreeCount(1, 1, 1, wrong="reach"), PairIteration(3, True, wrong="ordered"),
-           Accumulate(2, 1, 1, True, wrong="nohalf"), Linkage(2, wrong="reach"), MaxAngle(1, 1, "Mpc", wrong="edge")]
+           Accumulate(2, 1, 1, True, wrong="nohalf"), Linkage(2, wrong="reach"), MaxAngle(1, 1, "Mpc", wrong="edge"), Wiring(wrong="swap")]
     return hs
 
 
